@@ -58,6 +58,17 @@ Theorem C07_evict_sound_partial : forall fuel cid slot H H',
   exists t, slab_get slot (gcmd cid H') = Some t /\ evictable (t_fs t).
 Proof. exact evict_sound. Qed.
 
+(* On the reference semantics (coq/Rt/Ref.v, with which the implementation is compared step by step on every
+   cancellation-free generated case): a command that reports done has no strand left, takes no later answer,
+   is not changed by any later drop, and running it again produces nothing - done is final. *)
+From Crux Require Rt.Ref Rt.RefCoreProps Rt.RefQuiesce.
+Theorem C07_ref_done_is_final : forall c, Ref.rdone c = true ->
+  RefCoreProps.strands_rc c = [] /\
+  (forall rid v, Ref.deliver rid v c = (false, c)) /\
+  (forall rid, Ref.dropreq rid c = c) /\
+  (forall g en n, RefQuiesce.rdepth c <= g -> Ref.run g en c n = Some (c, n, Ref.ro0)).
+Proof. exact RefQuiesce.done_is_final. Qed.
+
 Example C07_nonvacuous :
   direct FUEL0 (c_req_send 1 0 9) [AEffects; AIsDone; ADropReq 1 0 0; AIsDone]
   = Some [OEffects [mkOE 1 0 [] KOnce]; ODone false 1; ONone; ODone true 0].
